@@ -257,7 +257,7 @@ var scenarios = []scenario{
 			}
 		}
 	}},
-	{"D13-update-rewrites-id", "C12", func(s *S) {
+	{"D13-update-rewrites-id", "C12 C06", func(s *S) {
 		s.twins(numDocs(4), "x")
 		for _, c := range []string{"plain", "idx"} {
 			s.UpdateById(c, fixedID(1), &Upd{Name: "rewrite_id", NewID: fixedID(555), Set: map[string]any{"x": int64(50)}})
@@ -271,6 +271,12 @@ var scenarios = []scenario{
 			s.Insert(c, []map[string]any{{"_id": fixedID(70), "x": int64(1)}, {"_id": fixedID(71)}, {"_id": fixedID(70), "x": int64(2)}}, false)
 			s.Insert(c, []map[string]any{{"_id": fixedID(72)}, {"_id": fixedID(1)}}, false)
 			s.Insert(c, []map[string]any{{"_id": fixedID(73)}, {"_id": "zz"}}, false)
+			s.Insert(c, []map[string]any{{"_id": fixedID(74)}, {"_id": "zz", "_expiresAt": time.Date(2100, 1, 1, 0, 0, 0, 0, time.UTC)}}, false)
+			s.InsertAliased(c, map[string]any{"x": int64(1)}, 2)
+			s.InsertAliased(c, map[string]any{"_id": "", "x": int64(2)}, 3)
+			s.UpdateById(c, fixedID(3), &Upd{Name: "rewrite_id_dotted", Set: map[string]any{"_id.rev": int64(2)}})
+			s.Bulk(BulkUpdateMap, &model.Query{Coll: c, Crit: cmpc(model.OpEq, "x", int64(1))}, &Upd{Name: "rewrite_id_dotted", Set: map[string]any{"_id.rev": int64(3)}})
+			s.Count(&model.Query{Coll: c})
 			for _, i := range []int{1, 2, 3, 4, 555, 556, 70, 71, 72, 73} {
 				s.FindById(c, fixedID(i))
 			}
